@@ -722,10 +722,22 @@ def R3_loop(run):
     g = K.need_fn(SW + "get_next_liquidity")
     run.touch(g)
     neg = [at for at in A.atoms(g) if at.cond() and at.cond()[0] in ("Lt", "Ge") and const_val(at.cond()[2]) == 0]
+    # the same table written as one test: `a_to_b == (net < 0)` (liquidity grows exactly when direction flag and sign agree)
+    fused = []
+    for at in A.atoms(g):
+        c = at.cond()
+        if c and c[0] in ("Eq", "Ne"):
+            for (x, y) in ((c[1], c[2]), (c[2], c[1])):
+                y_ = strip(y)
+                if is_param(x, "a_to_b") and y_[0] == "bin" and y_[1] in ("Lt", "Ge") and const_val(y_[3]) == 0:
+                    fused.append((at, c[0] == "Eq", y_[1] == "Lt"))
     table = {}
     for ab in (True, False):
         for isneg in (True, False):
-            pva = prov_assuming(g, [(at, (at.cond()[0] == "Lt") == isneg) for at in neg], {"a_to_b": ab})
+            asm = [(at, (at.cond()[0] == "Lt") == isneg) for at in neg]
+            # fused atom holds iff (a_to_b == (net < 0)) [resp. !=, resp. written with >=]
+            asm += [(at, ((ab == (isneg if is_lt else not isneg)) == is_eq)) for (at, is_eq, is_lt) in fused]
+            pva = prov_assuming(g, asm, {"a_to_b": ab})
             ops = set()
             for r in _rets(g, pva, ok_only=False):
                 if r[0] == "bin" and strip(r[2]) == ("param", "current_liquidity") and is_call(r[3], "unsigned_abs"):
@@ -734,13 +746,19 @@ def R3_loop(run):
                     ops.add("?" + sh(r, 40))
             table[(ab, isneg)] = ops
     want = {(True, True): {"Add"}, (True, False): {"Sub"}, (False, True): {"Sub"}, (False, False): {"Add"}}
-    run.check("R3", "crossing-sign-table", bool(neg) and table == want, "SDK get_next_liquidity sign table is %s, expected a_to_b: net<0 => +|net| else -|net|; b_to_a: the reverse" %
+    run.check("R3", "crossing-sign-table", bool(neg or fused) and table == want, "SDK get_next_liquidity sign table is %s, expected a_to_b: net<0 => +|net| else -|net|; b_to_a: the reverse" %
               {k: sorted(v) for k, v in table.items()}, loc=g.loc(), detail="a_to_b subtracts liquidity_net, b_to_a adds it")
     lq = [strip(pv_) for pv_ in []]
     # liquidity_net of an absent (uninitialised / out of sequence) tick is zero
     pvg = prov_of(g)
     netdef = [s for r in _rets(g, pvg, ok_only=False) for s in subterms(r) if s[0] == "call" and s[1].endswith("unwrap_or")]
     ok = bool(netdef) and all(const_val(s[2][1]) == 0 for s in netdef)
+    if not netdef:
+        # the same default written as a match: the magnitude applied is |phi{0 | next_tick?.liquidity_net}|
+        mags = [s for r in _rets(g, pvg, ok_only=False) for s in subterms(r) if s[0] == "call" and s[1].endswith("unsigned_abs")]
+        alts = {(const_val(l) if const_val(l) is not None else ("net" if (strip(l)[0] == "field" and strip(l)[2] == "liquidity_net" and mentions(l, lambda q: q[0] == "param" and q[1] == "next_tick")) else sh(l, 30)))
+                for m_ in mags for l in leaves(strip(m_[2][0]))}
+        ok = bool(mags) and alts == {0, "net"}
     run.check("R3", "absent-tick-zero", ok, "SDK get_next_liquidity does not treat a missing tick as liquidity_net = 0", loc=g.loc(), detail="next_tick.map(net).unwrap_or(0)")
     # per-mode amount updates
     for si in (True, False):
